@@ -13,8 +13,8 @@ XP : spec/CasExport.tla (MC_C20x) enumerates (record set, export profile, withhe
      untampered => same records and material; tampered => typed error, never different content.
 RP : the same spec with a history variable exports EVERY behaviour of N calls (each call with the
      model's predicted result and the predicted observable state after it) and, in the thorough tier
-     with -simulate, random behaviours of 12 calls; harness c20 drives the real MemoryTier (+RetainedBlobIndex, 3 byte
-     tables, 6 coordinate tables) / DiskTier (scratch directory per case) through the same calls,
+     with -simulate, random behaviours of 12 calls; harness c20 drives the real MemoryTier (+RetainedBlobIndex, 7 byte
+     tables of which 4 give all blobs the same length, 6 coordinate tables) / DiskTier (scratch directory per case) through the same calls,
      compares every result and the full observable state after every call with the prediction and
      decides the property itself on the real results.  Deviations from the model under which the
      property still holds are drift (evidence note), not violations.
@@ -34,7 +34,7 @@ QUICK = {
     "mc": ["MC_C20_quick_mc.cfg"],
     "export": ["MC_C20_quick.cfg", "MC_C20_quick_l3.cfg"],
     "xcfg": "MC_C20x_quick.cfg",
-    "sim": 0, "sweeps": 4, "sweep_lens": [[0, 1, 2, 33], [1, 7, 64, 300], [5, 48, 1000], [3, 40, 70000]],
+    "sim": 0, "sweeps": 4, "sweep_lens": [[0, 1, 2, 33, 33], [1, 7, 64, 64, 300], [5, 48, 1000], [3, 40, 70000]],
 }
 THOROUGH = {
     "mc": ["MC_C20_thorough_mc.cfg"],
@@ -90,6 +90,7 @@ def sweep_cases(cfg, sd):
         else:
             lens = sorted({rng.choice([0, 1, 2, 3, 31, 32, 33, 64, 65, 255, 1024, 4097, 65536, 100001]) for _ in range(rng.randint(2, 5))}
                           | {rng.randint(1, 48)})
+            lens.append(lens[-1] if k % 2 else lens[len(lens) // 2])    # two different blobs of EQUAL length in every store
         out.append({"kind": "sweep", "seed": rng.randint(1, 2 ** 31 - 1), "lens": lens})
     return out
 
@@ -196,7 +197,9 @@ def run(tier, replay=None):
             f"{json.dumps(drift[0])[:1500]}")
         ck.notes.append({"drift_cases": len(drift), "first": drift[0], "first_case": picked.get(drift[0]["i"])})
     if not replay and (summary["seq"] == 0 or summary["export"] == 0 or summary["sweep"] == 0 or summary["nontrivial"] == 0
-                       or summary["sweep_faults"] == 0 or summary["envelope_evals"] == 0):
+                       or summary["sweep_faults"] == 0 or summary["envelope_evals"] == 0
+                       or summary["eq_len_retain_conflicts"] == 0 or summary["eq_len_pv_mismatches"] == 0
+                       or summary["sweep_same_len_faults"] == 0 or summary["sweep_len_changing_faults"] == 0):
         raise ToolError("a leg of the check replayed nothing (vacuous)")
     mid = picked.get(summary["seq"] // 2)
     if mid and "steps" in mid:
@@ -211,6 +214,10 @@ def run(tier, replay=None):
     ck.cov["distinct_nontrivial"] = summary["nontrivial"]
     ck.cov["replays"] = summary["replays"]
     ck.cov["ok_reads_hash_checked"] = summary["ok_reads_hash_checked"]
+    ck.cov["equal_length_conflicting_retains"] = summary["eq_len_retain_conflicts"]
+    ck.cov["equal_length_mismatching_verified_puts"] = summary["eq_len_pv_mismatches"]
+    ck.cov["sweep_length_preserving_corruptions"] = summary["sweep_same_len_faults"]
+    ck.cov["sweep_length_changing_corruptions"] = summary["sweep_len_changing_faults"]
     ck.cov["sweep_stores"] = summary["sweep"]
     ck.cov["sweep_single_faults"] = summary["sweep_faults"]
     ck.cov["sweep_queries"] = summary["sweep_queries"]
@@ -225,7 +232,8 @@ def run(tier, replay=None):
     ck.assumptions += [
         "bounded scope: 2-3 blobs, 1-2 semantic coordinates, behaviours of 3-5 calls exhaustively and 12 calls sampled (cfg constants)",
         "content id modelled as identity on blob values; corrupted file contents are values whose hash is no requested hash "
-        "(BLAKE3 collision-freeness on the byte tables: 1/2/3-byte, 64/128/192-byte, 4096/8192/12288-byte blobs)",
+        "(BLAKE3 collision-freeness on the 7 byte tables: rank-length 1/2/3, 64/128/192, 4096/8192/12288 bytes; EQUAL-length 64 random, "
+        "64 differing only in the last byte, 4096 with a 4000-byte common prefix, 1 byte each)",
         "file faults are applied between calls (no fault concurrent with a call); disk scratch on the sandbox file system",
         "trusted base: TLC, the harness result encoding (c20.rs), serde_json",
         "export profiles: sources are sealed single-segment filesystem WALs with 1-3 submission/receipt/correlation triples and 0-2 retained "
